@@ -220,6 +220,7 @@ impl<K: KeyT, V: ValT> World<K, V> {
         };
         let co = call(|| {
             let mut d = sut(|| slot.m.drain());
+            sut(|| debug_to_sink(&d));
             loop {
                 let remaining = total - yielded.len().min(total);
                 let (lo, hi) = sut(|| d.size_hint());
@@ -315,6 +316,7 @@ impl<K: KeyT, V: ValT> World<K, V> {
         };
         let co = call(|| {
             let mut it = sut(|| old.into_iter());
+            sut(|| debug_to_sink(&it));
             loop {
                 let remaining = total - yielded.len().min(total);
                 let (lo, hi) = sut(|| it.size_hint());
